@@ -43,6 +43,52 @@ type keyPick struct {
 	Mutate int   // 0 none, 1 last column replaced by a neighbour, 2 by an arbitrary value
 	Other  val.V // the arbitrary value
 	Near   int   // selects the neighbour
+	// GoType selects the Go type in which the key values are handed over
+	// (Key accepts int, int32, uint, uint32, bool, float32 besides the five
+	// SQLite classes); 0: the canonical int64 / float64
+	GoType int `json:",omitempty"`
+}
+
+// goValue gives v as one of the Go types sqlittle.Key accepts, without
+// changing its value. A REAL that is an integer at or above 2^63 can also be
+// given as a uint (SQLite reads such an integer literal as that REAL).
+func goValue(v val.V, variant int) interface{} {
+	switch v.T {
+	case 'i':
+		switch variant % 6 {
+		case 1:
+			return int(v.I)
+		case 2:
+			if v.I >= -1<<31 && v.I < 1<<31 {
+				return int32(v.I)
+			}
+		case 3:
+			if v.I >= 0 {
+				return uint(v.I)
+			}
+		case 4:
+			if v.I >= 0 && v.I < 1<<32 {
+				return uint32(v.I)
+			}
+		case 5:
+			if v.I == 0 || v.I == 1 {
+				return v.I == 1
+			}
+		}
+	case 'r':
+		f := v.Go().(float64)
+		switch variant % 3 {
+		case 1:
+			if float64(float32(f)) == f {
+				return float32(f)
+			}
+		case 2:
+			if f >= 9223372036854775808.0 && f < 18446744073709551616.0 && f == float64(uint64(f)) {
+				return uint(f)
+			}
+		}
+	}
+	return v.Go()
 }
 
 // indexOrder builds the ORDER BY list and the key expressions of an index
@@ -277,6 +323,7 @@ func TestC03EqualitySearch(t *testing.T) {
 				s.Keys = append(s.Keys, keyPick{
 					Row: rapid.IntRange(0, 5000).Draw(t, "krow"), Prefix: rapid.IntRange(0, 6).Draw(t, "kprefix"),
 					Mutate: rapid.SampledFrom([]int{0, 0, 1, 1, 2}).Draw(t, "kmut"), Other: gen.Value().Draw(t, "kother"), Near: rapid.IntRange(0, 1000).Draw(t, "knear"),
+					GoType: rapid.IntRange(0, 11).Draw(t, "kgotype"),
 				})
 			}
 			return s
@@ -429,7 +476,7 @@ func runC03(r *vt.Run, t vt.TB, s spec) {
 				}
 				var gk sqlittle.Key
 				for _, v := range key {
-					gk = append(gk, v.Go())
+					gk = append(gk, goValue(v, kp.GoType))
 				}
 				var got [][]interface{}
 				err = tg.run(gk, func(row sqlittle.Row) { got = append(got, append([]interface{}{}, row...)) })
